@@ -160,4 +160,27 @@ theorem C06_reachableM {s : State} (h : ReachM s) (env : Env) :
   ⟨fun id a ha => C06_cancel_ask env s id a (reachM_inv h).1 ha,
    fun id b hb => C06_cancel_bid env s id b (reachM_inv h).1 hb⟩
 
+/-- C06 / C15 for bids carried over from the event-log format: after an accepted migration from
+    a format-changing version whose result is a consistent book (`sane` – a decidable condition
+    on the converted amounts, evaluated by the driver on every such migration), an old-format bid
+    is on the book as a current-format bid with the same owner, terms and remaining amounts
+    (the fold over its event log), and its owner can cancel it with a plain request: the
+    request succeeds, returns exactly those remaining amounts and removes the order – the bid
+    behaves like a native one -/
+theorem C06_carried_over (env : Env) (s s' : State) (m : MigMsg) (r : Response)
+    (h : migrate env s m = .ok (s', r)) (hw : inWindow s = true) (hs' : sane s' = true)
+    (k : String) (old : BidV2) (hk : s.bids.get? k = some (.v2 old)) :
+    ∃ b, loadBid s' k = some b ∧ b.owner = old.owner ∧ b.price = old.price ∧ b.base = old.base ∧
+      b.quote = old.quote ∧ b.fee = old.fee ∧ (b.remBase, b.remQuote, b.remFee) = v2Remaining old ∧
+      ∃ s'' r', execute env s' ⟨b.owner, [], .cancelBid k⟩ = .ok (s'', r') ∧
+        C06_bidExitOK env.contract s' k r' s'' = true := by
+  obtain ⟨_, ⟨v, hp, _, hb⟩, _⟩ := migrate_ok h
+  have hwin : (v.geReq 0 16 2 && v.ltReq 0 19 1) = true := by simpa [inWindow, hp] using hw
+  have hget : s'.bids.get? k = some (.v3 old.convert) := by
+    rw [hb, if_pos hwin, get?_map_convert, hk]; rfl
+  have hload : loadBid s' k = some old.convert := loadBid_some.mpr hget
+  obtain ⟨h1, h2, h3, _, h5, h6, h7⟩ := C15_convert old
+  refine ⟨old.convert, hload, h5, h6, h1, h2, h3, h7, ?_⟩
+  exact C06_cancel_bid env s' k old.convert hs' hload
+
 end Ats.Proofs
